@@ -4,6 +4,7 @@ CONSTANTS
   Templates <- TplC18r
   Bundles <- Ca1Only
   Ctxs <- Ample
+  Reqs <- FullReq
   Tries <- Three
   Hists <- NoHist
   BackoffCfgs <- NoBoCfgs
